@@ -47,7 +47,7 @@ func init() {
 			rulePreflightNotAgainstRootUnion(c, "R12")
 			ruleResponseHeadersAreNotWiped(c, "R13")
 			ruleReadersWriteNothing(c, "R14", "router")
-			ruleCallersSlicesAreNotRetained(c, "R15", "WithCORS")
+			ruleCallersSlicesAreNotRetained(c, "R15", "WithCORS|NewGroup")
 			ruleSameTypedSlotsAreNotCrossed(c, "R16")
 			ruleHeaderNameCase(c, "R12")
 		},
@@ -73,7 +73,7 @@ func init() {
 			ruleNodeMethodSetReadOnce(c, "R12")
 			ruleResponseHeadersAreNotWiped(c, "R13")
 			ruleReadersWriteNothing(c, "R14", "router")
-			ruleCallersSlicesAreNotRetained(c, "R15", "WithCORS")
+			ruleCallersSlicesAreNotRetained(c, "R15", "WithCORS|NewGroup")
 		},
 	})
 }
